@@ -111,7 +111,7 @@ Definition grow_write (n : Z) (dat : Z -> list Z) (s : st) : st :=
   let s2 := store (head buf) (pos buf) (dat m) s1 in
   store (head buf) (pos buf + m) [0] s2.
 
-(* StringBuilder& append(const char* str, size_t n); data = the bytes str denotes when the call is made.  Since fbd6917 the code
+(* StringBuilder& append(const char* str, size_t n); data = the bytes str denotes when the call is made.  Since 230fbe6 the code
    copies them aside when an inline builder is about to spill (str may point into sbo_, which the spill overwrites): a no-op on values *)
 Definition append_bytes (data : list Z) (s : st) : st :=
   if type s =? T_Str then set_str (str s ++ data) s
